@@ -129,6 +129,8 @@ impl Run {
         self.step(sc.stake(&u[0], big, None, None, None));
         self.step(Op::Fault { idx: 1 });
         self.step(sc.stake(&u[0], big, Some(&nu[0]), Some(true), None));
+        self.step(Op::FaultNoData { idx: 0 });
+        self.step(sc.stake(&u[0], big, None, None, None));
         self.step(Op::NativeMint { addr: coll.clone(), amount: 1000 });
         self.step(Op::Fault { idx: 0 });
         self.step(sc.reward(&coll, &ch, 1000));
